@@ -958,8 +958,10 @@ func (x *Exec) store(st *State, fr *Frame, addr Val, v Val, t types.Type, at ssa
 		x.guardCheck(st, a, true, v)
 		st.storeField(a.Ref, a.S, a.SN, a.Idx, v)
 	case ElemPtr:
+		x.publishedCheck(st, fr, a.Arr, tTrue, at)
 		st.storeElem(a.Arr, a.Idx, a.Elem, v)
 	case ElemFieldPtr:
+		x.publishedCheck(st, fr, a.Arr, tTrue, at)
 		keys, sorts, _ := st.elemKeys(a.Elem)
 		k := a.Field
 		arr := st.elemArr(nil, keys[k], sorts[k])
@@ -1011,6 +1013,55 @@ func (x *Exec) guardCheck(st *State, a FieldPtr, write bool, nv Val) {
 			x.oblige(st, name, "lock-discipline", []string{"C14"}, goal, pos, key+" is accessed only while "+a.SN+"."+mf+" is held in the required mode")
 		}
 	}
+	if write && x.curContract != nil && len(x.curContract.Immutable) > 0 && x.onlyTagIs("C15") && len(st.frames) >= 1 {
+		_, once := x.specs.OnceGuard[key]
+		if !once {
+			top := st.frames[0]
+			for _, pn := range x.curContract.Immutable {
+				for _, p := range top.fn.Params {
+					if p.Name() != pn {
+						continue
+					}
+					pv, isT := top.regs[p].(Term)
+					if !isT {
+						continue
+					}
+					if pt, ok := under(p.Type()).(*types.Pointer); ok && structName(pt.Elem()) != a.SN {
+						continue // a store into an object of another type cannot hit the generator object
+					}
+					pos := token.NoPos
+					if fr.pc < len(fr.block.Instrs) {
+						pos = fr.block.Instrs[fr.pc].Pos()
+					}
+					name := fmt.Sprintf("%s/immutable:%s@%s", x.curFunc, key, x.siteName(fr, pos))
+					x.oblige(st, name, "immutability", []string{"C15"}, tNot(tSame(a.Ref, pv)), pos, "no field of the shared generator object "+pn+" is written while drawing (store to "+key+")")
+				}
+			}
+		}
+	}
+	if of, ok := x.specs.OnceGuard[key]; ok && x.onlyTagIs("C15") {
+		in, hasIn := st.ghost["onceIn"]
+		done, hasDone := st.ghost["onceDone"]
+		if hasIn && hasDone {
+			st.declareOnce("is_fresh", "(declare-fun is_fresh (Ref) Int)")
+			o := st.embRef(a.SN, of, a.Ref)
+			var need Term
+			kind := "once-read"
+			if write {
+				need = tSelect(in, o)
+				kind = "once-write"
+			} else {
+				need = tOr(tSelect(done, o), tSelect(in, o))
+			}
+			goal := tOr(Term{S: "(> (is_fresh " + a.Ref.S + ") 0)", Sort: sBool}, need)
+			pos := token.NoPos
+			if fr.pc < len(fr.block.Instrs) {
+				pos = fr.block.Instrs[fr.pc].Pos()
+			}
+			name := fmt.Sprintf("%s/%s:%s@%s", x.curFunc, kind, key, x.siteName(fr, pos))
+			x.oblige(st, name, "once-discipline", []string{"C15"}, goal, pos, key+" is written only inside "+a.SN+"."+of+".Do and read only after it")
+		}
+	}
 	if tr, ok := x.specs.Trans[key]; ok && write {
 		if x.onlyTag != "" && len(tr.Tags) > 0 {
 			found := false
@@ -1040,6 +1091,21 @@ func (x *Exec) guardCheck(st *State, a FieldPtr, write bool, nv Val) {
 
 func (x *Exec) onlyTagIs(tag string) bool { return x.onlyTag == "" || x.onlyTag == tag }
 
+// publishedCheck (C15): memory that has been handed to a process-wide cache (ghost published[arr], set by the
+// dependency contracts of sync.Map.Store/LoadOrStore) must never be written again.
+func (x *Exec) publishedCheck(st *State, fr *Frame, arr Term, cond Term, at ssa.Instruction) {
+	pub, ok := st.ghost["published"]
+	if !ok || !x.onlyTagIs("C15") || x.curContract == nil || !x.curContract.ChecksPub {
+		return
+	}
+	pos := token.NoPos
+	if at != nil {
+		pos = at.Pos()
+	}
+	goal := tImplies(cond, tNot(tSelect(pub, arr)))
+	x.oblige(st, fmt.Sprintf("%s/write-after-publish@%s", x.curFunc, x.siteName(fr, pos)), "immutability", []string{"C15"}, goal, pos, "memory already stored in a shared cache is not written")
+}
+
 func (x *Exec) fieldAddr(st *State, base Val, bt types.Type, field int) Val {
 	pt := under(bt).(*types.Pointer).Elem()
 	su := under(pt).(*types.Struct)
@@ -1067,6 +1133,10 @@ func (x *Exec) boundsCheck(st *State, fr *Frame, idx, n Term, pos token.Pos, wha
 // safety records a no-panic-sweep obligation, named by kind and ordinal within the function.
 func (x *Exec) safety(st *State, fr *Frame, kind string, goal Term, pos token.Pos, what string) {
 	if goal.S == "true" {
+		return
+	}
+	if x.curContract != nil && x.curContract.NoSafety {
+		st.assume(goal)
 		return
 	}
 	name := fmt.Sprintf("%s/%s@%s", x.curFunc, kind, x.siteName(fr, pos))
@@ -1322,6 +1392,11 @@ func (x *Exec) execLookup(st *State, fr *Frame, i *ssa.Lookup) Val {
 // ---------------------------------------------------------------------------------------------
 // Interfaces
 
+func isSliceType(t types.Type) bool {
+	_, ok := under(t).(*types.Slice)
+	return ok
+}
+
 func (x *Exec) typeTag(t types.Type) int {
 	key := types.TypeString(t, nil)
 	if id, ok := x.tagIDs[key]; ok {
@@ -1357,6 +1432,9 @@ func (x *Exec) makeInterface(st *State, v Val, t types.Type) Val {
 	case FieldPtr, GlobalPtr:
 		r := st.asTerm(v, nil)
 		return st.def("iface", Term{S: "(any_ref " + tag + " " + r.S + ")", Sort: sAny})
+	case *SliceV:
+		// a slice boxed in an interface: identified by its backing array (length/offset are not tracked)
+		return st.def("iface", Term{S: "(any_ref " + tag + " " + tv.Arr.S + ")", Sort: sAny})
 	}
 	// anything else: an opaque interface value, not nil
 	o := st.fresh("iface_other", sInt, nil)
@@ -1395,6 +1473,19 @@ func (x *Exec) execTypeAssert(st *State, fr *Frame, i *ssa.TypeAssert) []*State 
 			p = fmt.Sprintf("((_ extract %d 0) %s)", w-1, p)
 		}
 		payload = Term{S: p, Sort: sort, Typ: at}
+	case !okSort && isSliceType(at):
+		isT = Term{S: "(and ((_ is any_ref) " + v.S + ") (= (any_ref_tag " + v.S + ") " + tag + "))", Sort: sBool}
+		isT = st.def("isT", isT)
+		sl := st.freshVal(at, "asserted").(*SliceV)
+		st.assume(tImplies(isT, tSame(sl.Arr, Term{S: "(any_ref_v " + v.S + ")", Sort: sRef})))
+		if i.CommaOk {
+			fr.regs[i] = TupleV{sl, isT}
+		} else {
+			x.safety(st, fr, "type-assert", isT, i.Pos(), "type assertion succeeds")
+			fr.regs[i] = sl
+		}
+		fr.pc++
+		return nil
 	default:
 		// unmodelled dynamic type: unknown outcome
 		isT = st.fresh("assert_ok", sBool, nil)
